@@ -339,8 +339,9 @@ kproof!(cut, 6, fn c01_q_range1_guards_any_double() {
 // ---- evaluator arms on scalars ---------------------------------------------------------------
 kproof!(cut_nocall, 9, fn c01_q_factorial_total() {
     let a: f64 = kani::any();
-    // factorial's product loop runs n times: executed for n <= 6 (and every non-integer / negative)
-    kani::assume(!(a > 6.5));
+    // factorial's product loop runs n times: executed for n <= 6, for every non-integer / negative
+    // double, and for n > 170 (which must not enter the loop: 171! is already infinite)
+    kani::assume(!(a > 6.5 && a <= 170.0));
     let heap = arena::heap();
     let e = sp(Expr::PostfixOp { op: PostfixOp::Factorial, expr: arena::bx(num(a)) });
     kani::cover!(a == 6.0, "reach 6!");
@@ -348,6 +349,20 @@ kproof!(cut_nocall, 9, fn c01_q_factorial_total() {
     std::mem::forget(e);
     std::mem::forget(heap);
 });
+// factorial of doubles at and beyond the u64 range: the product loop is not entered for them (the
+// iterator is empty or the argument is rejected), so every such double is executed
+kproof!(cut_nocall, 4, fn c01_q_factorial_beyond_u64() {
+    let a: f64 = kani::any();
+    kani::assume(a >= 18446744073709551616.0 || a.is_nan());
+    let heap = arena::heap();
+    let e = sp(Expr::PostfixOp { op: PostfixOp::Factorial, expr: arena::bx(num(a)) });
+    kani::cover!(a == 18446744073709551616.0, "reach 2^64");
+    kani::cover!(a == f64::INFINITY, "reach infinity");
+    let _ = evaluate_ast(&e, heap.clone(), arena::env(), 0, src());
+    std::mem::forget(e);
+    std::mem::forget(heap);
+});
+
 macro_rules! c01_unary {
     ($name:ident, $mk:expr) => {
         kproof!(cut_nocall, 4, fn $name() {
